@@ -13,6 +13,10 @@ var (
 	pV2    = modPath + "/sib/v2"
 	pThird = modPath + "/sib/third"
 	pOdd   = modPath + "/sib/odd-dir"
+	pVia   = modPath + "/sib/via"
+	pAUtil = modPath + "/sib/a/util"
+	pBUtil = modPath + "/sib/b/util"
+	pUses  = modPath + "/sib/uses"
 )
 
 var basics = []string{"int", "string", "bool", "float64", "byte", "rune", "int64", "uint32", "uintptr", "complex128",
@@ -53,7 +57,7 @@ func (g *gen) keyTy() *gty {
 }
 
 func (g *gen) namedTy(depth int) *gty {
-	switch g.r.IntN(18) {
+	switch g.r.IntN(19) {
 	case 0:
 		return named(g.self, "Loc")
 	case 1:
@@ -88,6 +92,8 @@ func (g *gen) namedTy(depth int) *gty {
 		return named(pOdd, "Odd")
 	case 16:
 		return named(pThird, "X")
+	case 17:
+		return named(pAUtil, "X")
 	default:
 		return tAny
 	}
@@ -253,8 +259,48 @@ func genProgram(r *rand.Rand, name string) *prog {
 		p.Ifaces = append(p.Ifaces, it)
 		leaves = append(leaves, cand{named(g.self, "I1"), false, 0})
 	}
+	if r.IntN(4) == 0 {
+		// an interface that embeds interfaces: the local one (if any) and sibling ones whose method
+		// names do not collide with it (a shared name needs an identical signature — the siblings'
+		// Close() error is such a one; arbitrary overlaps are ifaceUnionProgram's job)
+		it := giface{Name: "I2"}
+		used := map[string]bool{}
+		i1close := false
+		if len(p.Ifaces) > 0 {
+			it.Embeds = append(it.Embeds, named(g.self, "I1"))
+			for _, m := range p.Ifaces[0].Methods {
+				used[m.Name] = true
+				i1close = i1close || m.Name == "Close"
+			}
+		}
+		for _, c := range []struct {
+			t  *gty
+			ms []string
+		}{{named(pPlain, "I"), []string{"Get", "Close"}}, {named(pRen, "RI"), []string{"Run"}},
+			{named(pOdd, "OddI"), []string{"Odd"}}, {named(pPlain, "ReadWriter"), []string{"Close", "Read", "Write", "Peer"}},
+			{named(pPlain, "Closer"), []string{"Close"}}} {
+			ok := r.IntN(2) == 0
+			for _, n := range c.ms {
+				if used[n] && (n != "Close" || i1close) {
+					ok = false
+				}
+			}
+			if !ok {
+				continue
+			}
+			for _, n := range c.ms {
+				used[n] = true
+			}
+			it.Embeds = append(it.Embeds, c.t)
+		}
+		if len(it.Embeds) > 0 {
+			p.Ifaces = append(p.Ifaces, it)
+			leaves = append(leaves, cand{named(g.self, "I2"), false, 0})
+		}
+	}
 	leaves = append(leaves,
 		cand{named(pPlain, "E"), true, 0}, cand{named(pPlain, "I"), false, 0},
+		cand{named(pPlain, "ReadWriter"), false, 0}, cand{tErr, false, 0}, cand{named(pVia, "ViaI"), false, 0},
 		cand{named(pRen, "RI"), false, 0}, cand{named(pThird, "Deep"), true, 0},
 		cand{named(pOdd, "OddI"), false, 0})
 
@@ -286,7 +332,12 @@ func genProgram(r *rand.Rand, name string) *prog {
 			p.Targets = append(p.Targets, s.Name)
 		}
 	}
-	mids = append(mids, cand{named(pPlain, "E2"), true, 1})
+	mids = append(mids, cand{named(pPlain, "E2"), true, 1}, cand{named(pVia, "Via"), true, 1})
+	if r.IntN(3) == 0 {
+		// types whose methods bring packages in on demand whose names may be bound already
+		leaves = append(leaves, cand{named(pUses, "UE"), true, 0}, cand{named(pUses, "UO"), true, 0},
+			cand{named(pUses, "UF"), true, 0}, cand{named(pUses, "UI"), false, 0})
+	}
 
 	orig := gstruct{Name: "Original", Methods: g.methods(1+r.IntN(8), true, true)}
 	if r.IntN(100) < 70 {
@@ -599,4 +650,179 @@ func (g *gen) shadowFields(s *gstruct) {
 			s.Fields = append(s.Fields, gfield{Name: nm, T: pick(g.r, fieldTypes)})
 		}
 	}
+}
+
+// ifaceUnionProgram: embedded INTERFACES that themselves embed interfaces with overlapping methods
+// of identical signature (Reader{Read;Close} and Writer{Write;Close} inside ReadWriter), diamonds
+// (both embed one base interface), restated methods, local and sibling-package interfaces, embedded
+// in a struct directly (one field, several fields) or two levels deep (interface inside an embedded
+// struct).  The method set of an interface is a set: a method two embedded interfaces share is ONE
+// method, which Go promotes from the single embedded field.  Every declaration of a name has the
+// same types (Go demands it); the parameter names differ from declaration to declaration.
+func ifaceUnionProgram(r *rand.Rand, name, kind string, variant int) *prog {
+	p := &prog{Name: name, Kind: kind, Targets: []string{"Original"}}
+	g := &gen{r: r, self: self(p)}
+	p.RenameA = map[string]string{pRen: "rr"}
+	if r.IntN(3) == 0 {
+		p.RenameA[pThird] = "t3"
+	}
+	p.RenameB = map[string]string{pPlain: "pl", pV2: "vv", pThird: "thr", "context": "cx"}
+	if variant < 0 {
+		variant = r.IntN(8)
+	}
+	pool := []string{"Close", "Read", "Write", "Flush", "Peer", "reset"}
+	proto := map[string]gmeth{}
+	for _, nm := range pool {
+		ps, v, rs := g.sig(2, 2)
+		proto[nm] = gmeth{Name: nm, Ps: ps, Variadic: v, Rs: rs}
+	}
+	proto["Close"] = gmeth{Name: "Close", Rs: []gpar{par("", tErr)}} // as in package plain
+	decl := func(nm string) gmeth {
+		m := proto[nm]
+		taken := map[string]bool{}
+		ins, outs := g.names(len(m.Ps), taken, 40), g.names(len(m.Rs), taken, 60)
+		d := gmeth{Name: nm, Variadic: m.Variadic}
+		for i, q := range m.Ps {
+			d.Ps = append(d.Ps, par(ins[i], q.T))
+		}
+		for i, q := range m.Rs {
+			d.Rs = append(d.Rs, par(outs[i], q.T))
+		}
+		return d
+	}
+	loc := func(n string) *gty { return named(g.self, n) }
+	diamond := r.IntN(2) == 0
+	ir := giface{Name: "IR", Methods: []gmeth{decl("Read")}}
+	iw := giface{Name: "IW", Methods: []gmeth{decl("Write")}}
+	if diamond {
+		p.Ifaces = append(p.Ifaces, giface{Name: "IC", Methods: []gmeth{decl("Close")}})
+		ir.Embeds, iw.Embeds = []*gty{loc("IC")}, []*gty{loc("IC")}
+		if r.IntN(3) == 0 {
+			iw.Methods = append(iw.Methods, decl("Close")) // restated next to the embedded declaration
+		}
+	} else {
+		ir.Methods = append(ir.Methods, decl("Close"))
+		iw.Methods = append(iw.Methods, decl("Close"))
+	}
+	for _, nm := range []string{"Peer", "reset", "Flush"} {
+		switch r.IntN(4) {
+		case 0:
+			ir.Methods = append(ir.Methods, decl(nm))
+			iw.Methods = append(iw.Methods, decl(nm))
+		case 1:
+			ir.Methods = append(ir.Methods, decl(nm))
+		}
+	}
+	irw := giface{Name: "IRW", Embeds: []*gty{loc("IR"), loc("IW")}}
+	switch r.IntN(4) {
+	case 0:
+		irw.Methods = append(irw.Methods, decl("Close"))
+	case 1:
+		irw.Methods = append(irw.Methods, decl("Flush"))
+	case 2:
+		irw.Embeds = append(irw.Embeds, named(pPlain, "Closer")) // the same Close() error from a sibling package
+	}
+	p.Ifaces = append(p.Ifaces, ir, iw, irw)
+	orig := gstruct{Name: "Original", Methods: []gmeth{{Name: "Own"}}}
+	if r.IntN(6) == 0 {
+		orig.Methods = append(orig.Methods, decl(pick(r, []string{"Close", "Peer", "Read"}))) // the type's own method wins
+	}
+	switch variant {
+	case 0: // the single embedded field is the interface
+		orig.Embeds = []gembed{{T: loc("IRW")}}
+	case 1: // next to a struct with an unrelated or a clashing method
+		l := gstruct{Name: "L", Methods: []gmeth{decl(pick(r, []string{"Flush", "Write"})), {Name: "Unrelated"}}}
+		p.Structs = append(p.Structs, l)
+		orig.Embeds = []gembed{{T: loc("IRW")}, {T: loc("L"), Ptr: r.IntN(2) == 0}}
+	case 2: // two levels deep: the interface inside an embedded struct
+		f := gstruct{Name: "F", Embeds: []gembed{{T: loc("IRW")}}, Methods: []gmeth{{Name: "OfF"}}}
+		p.Structs = append(p.Structs, f)
+		p.Targets = append(p.Targets, "F")
+		orig.Embeds = []gembed{{T: loc("F"), Ptr: r.IntN(2) == 0}}
+	case 3: // two levels deep, beside a sibling struct; a plain field of F may hide a method
+		f := gstruct{Name: "F", Embeds: []gembed{{T: loc("IRW")}}}
+		if r.IntN(2) == 0 {
+			f.Fields = []gfield{{Name: pick(r, []string{"Read", "Close", "Other"}), T: pick(r, fieldTypes)}}
+		}
+		p.Structs = append(p.Structs, f)
+		p.Targets = append(p.Targets, "F")
+		orig.Embeds = []gembed{{T: loc("F"), Ptr: true}, {T: named(pPlain, "E")}}
+	case 4: // the diamond of a sibling package (its Peer mentions a package a.go does not import)
+		orig.Embeds = []gembed{{T: named(pPlain, "ReadWriter")}}
+	case 5: // the union and one of its parts as two fields: the shared names are ambiguous in Go
+		orig.Embeds = []gembed{{T: loc("IRW")}, {T: loc("IR")}}
+	case 6: // a local interface joining the local union with the sibling one
+		ix := giface{Name: "IX", Embeds: []*gty{loc("IW"), named(pPlain, "Closer")}, Methods: []gmeth{decl("Close")}}
+		p.Ifaces = append(p.Ifaces, ix)
+		orig.Embeds = []gembed{{T: loc("IX")}}
+	default: // three levels of interface embedding below one struct field
+		top := giface{Name: "ITop", Embeds: []*gty{loc("IRW"), loc("IR"), named(pPlain, "Writer")}}
+		// plain.Writer declares Write/Peer/Close with its own types: only compatible names may be shared
+		top.Embeds = top.Embeds[:2]
+		p.Ifaces = append(p.Ifaces, top)
+		f := gstruct{Name: "F", Embeds: []gembed{{T: loc("ITop")}}, Methods: []gmeth{{Name: "OfF"}}}
+		p.Structs = append(p.Structs, f)
+		orig.Embeds = []gembed{{T: loc("F")}}
+	}
+	p.Structs = append(p.Structs, orig)
+	return p
+}
+
+// aliasClashProgram: an import added on demand (for a package the file a.go does not import,
+// met in the signature of a method promoted from an embedded sibling type) whose package name is
+// bound already — by a plain import of a.go (a/util against b/util), by a rename of a.go
+// (`realname "…/sib/ren"` against package realname of directory odd-dir), by a package-level
+// declaration of the target package (type far), by another on-demand import (a/util through a
+// method declared in b.go, then b/util) — active or not when the clash arises.  Two imports
+// binding one name do not compile; the qualifier must denote the right package.
+func aliasClashProgram(r *rand.Rand, name, kind string, variant int) *prog {
+	p := &prog{Name: name, Kind: kind, Targets: []string{"Original"}}
+	g := &gen{r: r, self: self(p)}
+	p.RenameA = map[string]string{pRen: "rr"}
+	p.RenameB = map[string]string{pPlain: "pl", pV2: "vv", pThird: "thr", "context": "cx"}
+	if variant < 0 {
+		variant = r.IntN(7)
+	}
+	nm := func(s string) string { return pick(r, []string{s, "_", ""}) }
+	one := func(n string, t *gty) []gpar {
+		x := nm(n)
+		return []gpar{par(x, t)}
+	}
+	orig := gstruct{Name: "Original"}
+	utilX := named(pAUtil, "X")
+	switch variant {
+	case 0: // plain import util (a/util) used by the target; b/util arrives on demand
+		orig.Methods = []gmeth{{Name: "Own", Ps: one("x", utilX), Rs: one("", slice(utilX))}}
+		orig.Embeds = []gembed{{T: named(pUses, "UE"), Ptr: r.IntN(2) == 0}}
+	case 1: // the plain import is used by another type of a.go only: not active for Original
+		p.Structs = append(p.Structs, gstruct{Name: "Other", Methods: []gmeth{{Name: "Uses", Ps: one("x", utilX)}}})
+		p.Targets = append(p.Targets, "Other")
+		orig.Methods = []gmeth{{Name: "Own"}}
+		orig.Embeds = []gembed{{T: named(pUses, "UE")}}
+	case 2: // a rename of a.go equals the package name of an on-demand import (odd-dir -> realname)
+		p.RenameA = map[string]string{pRen: "realname"}
+		orig.Methods = []gmeth{{Name: "Own", Ps: one("r", named(pRen, "R")), Rs: one("", ptr(named(pRen, "Gen", basic("int"), named(pRen, "R"))))}}
+		orig.Embeds = []gembed{{T: named(pUses, "UO"), Ptr: true}}
+	case 3: // a package-level declaration of the target package is named like the on-demand package
+		p.Structs = append(p.Structs, gstruct{Name: "far"})
+		orig.Methods = []gmeth{{Name: "Own", Ps: one("f", ptr(named(g.self, "far")))}}
+		orig.Embeds = []gembed{{T: named(pUses, "UF")}}
+	case 4: // two levels deep, the clash arises below an embedded struct of the same package
+		f := gstruct{Name: "F", Embeds: []gembed{{T: named(pUses, "UE")}, {T: named(pUses, "UI")}},
+			Methods: []gmeth{{Name: "OfF", Rs: one("", mapOf(basic("string"), utilX))}}}
+		p.Structs = append(p.Structs, f)
+		p.Targets = append(p.Targets, "F")
+		orig.Methods = []gmeth{{Name: "Own"}}
+		orig.Embeds = []gembed{{T: named(g.self, "F"), Ptr: r.IntN(2) == 0}}
+	case 5: // two on-demand imports of one name: a/util through a method declared in b.go, then b/util
+		orig.Methods = []gmeth{{Name: "Own"}, {Name: "InB", File: 1, Ps: one("x", utilX)}}
+		orig.Embeds = []gembed{{T: named(pUses, "UE")}}
+	default: // all of them at once, and the interface
+		p.RenameA = map[string]string{pRen: "realname"}
+		p.Structs = append(p.Structs, gstruct{Name: "far"})
+		orig.Methods = []gmeth{{Name: "Own", Ps: []gpar{par("x", utilX), par("r", named(pRen, "R")), par("f", named(g.self, "far"))}}}
+		orig.Embeds = []gembed{{T: named(pUses, "UE")}, {T: named(pUses, "UO"), Ptr: true}, {T: named(pUses, "UF")}, {T: named(pUses, "UI")}}
+	}
+	p.Structs = append(p.Structs, orig)
+	return p
 }
